@@ -53,6 +53,19 @@ CHECKS = {
   "note": COMMON_NOTE + "Modelled not verified: sync/atomic semantics, mutex exclusion, Go map safety under the mutex; the translator "
           "itself (tools/facts/sec_stats.go, ~200 lines). mean.reset/counter.reset overlapping an add are excluded (no production caller).",
  },
+ "C14": {
+  "text": "Transition-system model of the pause protocol at the granularity of single channel operations, for any number of workers "
+          "and any history of Pause/Resume/stop calls from any controllers. Inductive invariant (7 clauses) proved for every action; "
+          "theorems: at quiescence no call is pending, a worker waits only while paused, after stop every worker has exited (no "
+          "deadlock); a paused state reaches every live worker; a finishing Resume leaves every live worker running with no stale "
+          "signal; unmatched calls return at once. Negations proved for the shapes of the pinned tree (D4, D5). Facts: channel "
+          "capacities, CAS directions, flag test + mutex in Resume, the acknowledgement shape in each of the four stage workers. "
+          "All call orders up to 5 (thorough 7) x 0..3 workers plus random histories run against the real package with real goroutines.",
+  "note": COMMON_NOTE + "Modelled not verified: Go channel/sync.Map/atomic semantics; subscribers register before the first pause; "
+          "flag test and Range snapshot of Resume are one atomic step; the harness's subscriber goroutines copy the pause case of the "
+          "stage workers (shape read from the source), the real workers run in C03's end-to-end scenarios. Termination of internal "
+          "steps (that quiescence is always reached) is argued by a decreasing measure in DESIGN.md, not yet proved in Lean.",
+ },
 }
 
 _todo = "check not built yet in this session (work in progress; see DESIGN.md §4 for the planned model and theorems)"
